@@ -2,12 +2,12 @@ SPECIFICATION Spec
 CONSTANTS
     Clients = {1, 2}
     MaxReq = 2
-    Cfgs <- CfgAll
+    Cfgs <- CfgQuick
     Calls <- CallsSmall
     Ctxs <- CtxTiny
     Mode = "mc"
     Depth = 0
 VIEW View
-INVARIANTS C43
+INVARIANTS NeverEndedTwice EndedExactlyOnce OnlyStartedSpansEnd ErrorIffFailed ParentedOnCaller CountedOnceWithStatus NeverCountedTwice CounterTotalsDispatches LedgerMatchesRequests
 PROPERTIES NoHookNoTrace ExpConsistent
 CHECK_DEADLOCK FALSE
